@@ -121,7 +121,7 @@ Lemma acct_client s e : acct s ->
   (match e with ServerSend _ | CliPoll _ | StreamNext _ | StreamFinish _ | Advance _ => True | _ => False end) -> acct (step s e).
 Proof.
   intros A He. pose proof (step_keyed s e (a_keyed s A)) as HK.
-  destruct e as [k tmo| | | |how|r|o|o|o|dt]; try contradiction; clear He.
+  destruct e as [k tmo| | | |how|r|o|o|o|dt|k tmo|o]; try contradiction; clear He.
   - (* ServerSend *) apply (acct_same_senders s _ A HK); try reflexivity. intros o c' H. exists c'. now repeat split.
   - (* CliPoll *) revert HK. unfold step. destruct (getop s o) as [c|] eqn:Ec; [|intros; exact A].
     destruct (waiting c); cbn [negb]; [|intros; exact A].
@@ -520,6 +520,48 @@ Proof.
       * destruct (Nat.eqb o (length (ops s))); [|discriminate]. injection H as <-. discriminate E.
 Qed.
 
+(* the two halves of a start, for callers on several threads: an allocated record holds no sender yet ... *)
+Lemma acct_alloc s k tmo : acct s -> acct (step s (Alloc k tmo)).
+Proof.
+  intros A. pose proof (step_keyed s (Alloc k tmo) (a_keyed s A)) as HK. revert HK. cbn [step]. unfold alloc.
+  destruct (next_msgid (last s) (inuse s)) as [mid| |]; try (intros; exact A). intros HK.
+  set (onew := mkOp mid k None CAlloc OsClosed [] 0 false false [] None tmo None).
+  assert (G : forall o, getop (s <| last := mid |> <| inuse ::= cons mid |> <| ops ::= fun l => l ++ [onew] |>) o =
+                        if Nat.ltb o (length (ops s)) then getop s o else if Nat.eqb o (length (ops s)) then Some onew else None).
+  { intros o. unfold getop. cbn [ops set]. destruct (Nat.ltb_spec o (length (ops s))); [now rewrite nth_error_app1|].
+    rewrite nth_error_app2 by lia. destruct (Nat.eqb_spec o (length (ops s))) as [->|]; [now rewrite Nat.sub_diag|].
+    destruct (o - length (ops s))%nat as [|[|m]] eqn:E; [lia|reflexivity|reflexivity]. }
+  constructor; try assumption; try apply A.
+  + intros o c H E. rewrite G in H. destruct (Nat.ltb o (length (ops s))).
+    * exact (a_reply s A o c H E).
+    * destruct (Nat.eqb o (length (ops s))); [|discriminate]. injection H as <-. discriminate E.
+  + intros o c H E. rewrite G in H. destruct (Nat.ltb o (length (ops s))).
+    * exact (a_chan s A o c H E).
+    * destruct (Nat.eqb o (length (ops s))); [|discriminate]. injection H as <-. discriminate E.
+Qed.
+(* ... and Enqueue creates them and puts them into the driver's queue (or fails at once if the driver is gone) *)
+Lemma acct_enqueue s o : acct s -> acct (step s (Enqueue o)).
+Proof.
+  intros A. pose proof (step_keyed s (Enqueue o) (a_keyed s A)) as HK. revert HK. cbn [step]. unfold enqueue.
+  destruct (getop s o) as [c|] eqn:Ec; [|intros; exact A].
+  destruct (o_status c); try (intros; exact A).
+  destruct (is_running s) eqn:Hr; intros HK.
+  - constructor; try assumption; try apply A.
+    + intros o' c' H E. match type of H with getop (set opq _ ?x) _ = _ => change (getop x o' = Some c') in H end.
+      rewrite getop_updop in H. split; [exact Hr|]. unfold sender_of_reply. cbn [opq rmap set updop].
+      destruct (Nat.eqb_spec o' o) as [->|Hne].
+      * left. apply in_or_app. right. now left.
+      * destruct (a_reply s A o' c' H E) as [_ [Hq|Hm]]; [left; apply in_or_app; now left|now right].
+    + intros o' c' H E. match type of H with getop (set opq _ ?x) _ = _ => change (getop x o' = Some c') in H end.
+      rewrite getop_updop in H. split; [exact Hr|]. unfold sender_of_chan. cbn [opq smap set updop].
+      destruct (Nat.eqb_spec o' o) as [->|Hne].
+      * rewrite Ec in H. cbn in H. injection H as <-. cbn in E. split; [left; apply in_or_app; right; now left|].
+        unfold is_search. cbn. destruct (o_kind c); try discriminate; exact I.
+      * destruct (a_chan s A o' c' H E) as (_ & [Hq|Hm] & K); (split; [|exact K]); [left; apply in_or_app; now left|now right].
+    + intros H. change (is_running s = false) in H. congruence.
+  - apply (acct_same_senders s _ A HK); try reflexivity; intros o' c' H; use_updop H.
+Qed.
+
 (* kind and id of an op survive every update used by the driver *)
 Definition kpres (g : cop -> cop) : Prop := forall c, o_kind (g c) = o_kind c /\ o_mid (g c) = o_mid c.
 Lemma kpres_drop_reply : kpres drop_reply. Proof. intros c. unfold drop_reply. destruct (o_reply c); now split. Qed.
@@ -660,10 +702,11 @@ Qed.
 
 Theorem acct_step s e : acct s -> (match e with DrvEnd Running => False | _ => True end) -> acct (step s e).
 Proof.
-  intros A He. destruct e as [k tmo| | | |how|r|o|o|o|dt].
+  intros A He. destruct e as [k tmo| | | |how|r|o|o|o|dt|k tmo|o].
   - now apply acct_start. - now apply acct_drvop. - now apply acct_scrub. - now apply acct_drvresp.
   - apply acct_drvend; [exact A|]. intros ->. exact He.
   - now apply acct_client. - now apply acct_client. - now apply acct_client. - now apply acct_client. - now apply acct_client.
+  - now apply acct_alloc. - now apply acct_enqueue.
 Qed.
 
 Definition proper (e : ev) : Prop := match e with DrvEnd Running => False | _ => True end.
